@@ -1443,7 +1443,10 @@ rrul_fill_wly(echs_instant_t *restrict tgt, size_t nti, rrulsp_t rr)
 				     y++;
 				     m = 1U;
 			     }
-			     maxd = echs_scale_ndim(srcsca, y, m);
+			     if (!(maxd = echs_scale_ndim(srcsca, y, m))) {
+				     /* past the end of the scale's table */
+				     goto fin;
+			     }
 		     }
 	     })) {
 		uint_fast32_t incs = wd_incs;
@@ -1463,6 +1466,10 @@ rrul_fill_wly(echs_instant_t *restrict tgt, size_t nti, rrulsp_t rr)
 				}
 				this_maxd =
 					echs_scale_ndim(srcsca, this_y, this_m);
+				if (UNLIKELY(!this_maxd)) {
+					/* past the end of the scale's table */
+					goto fin;
+				}
 			}
 
 			for (ENUM_INIT(e, iS, iM, iH);
@@ -1607,7 +1614,10 @@ rrul_fill_dly(echs_instant_t *restrict tgt, size_t nti, rrulsp_t rr)
 				     y++;
 				     m = 1U;
 			     }
-			     maxd = echs_scale_ndim(srcsca, y, m);
+			     if (!(maxd = echs_scale_ndim(srcsca, y, m))) {
+				     /* past the end of the scale's table */
+				     goto fin;
+			     }
 		     }
 	     })) {
 		/* we're subtractive, so check if the current ymd matches
